@@ -167,6 +167,17 @@ CLAIMED = {
         design_ref="DESIGN.md section 5, C16",
         technique="Coq proof about the parsed-document model with model/implementation correspondence on generated CML documents",
         note=NOTE_COMMON + " ElementTree and float() are trusted glue."),
+    "C13": dict(
+        text="Theorems on the file-content model (all consistent structures, both atom styles, cells absent / orthorhombic / LAMMPS-oriented): "
+             "load(save a) is the structure with positions, masses, charges and cell rounded to six decimals -- same atom order, type ids, groups, "
+             "labels, every term with its type, every coefficient entry (C13_roundtrip); the re-read structure is a fixed point of write-then-read "
+             "(C13_idempotent); declared counts equal section lengths (C13_counts); every structure in the domain can be written. The text "
+             "layer (formatting, blank-line section detection, split, float) is glue: on every run the implementation's text is tokenised by an "
+             "independent reader and compared with the model writer, read back by the implementation and compared with the model reader, and "
+             "second/third-generation texts are compared byte for byte.",
+        design_ref="DESIGN.md section 5, C13",
+        technique="Coq proof (round trip of the file-content model, rounding half-even to 1e-6) with model/implementation correspondence through an independent tokenizer",
+        note=NOTE_COMMON + " Text layout glue is tested, not modelled; elements assigned on reading are C14's subject."),
 }
 
 PENDING_REASON = "no check registered yet: the Coq model and correspondence for this property are still being built (see DESIGN.md section 7 work order); nothing is claimed"
